@@ -59,6 +59,10 @@ def append_comment(src: str, line: int, comment: str):
     return None
   if lines[line - 1].rstrip().endswith("\\"):
     return None
+  if lines[line - 1].lstrip().startswith("#"):
+    # a comment-only line (e.g. a `# type: (...) -> ...` function type comment): a directive
+    # appended there is a *stand-alone* directive by pytype's definition, not a trailing one
+    return None
   lines[line - 1] = lines[line - 1] + "  # " + comment
   new = "\n".join(lines)
   a, b = _tokens(src), _tokens(new)
